@@ -55,7 +55,7 @@ Proof.
   intros e fl. exists (keys_msg e). unfold has_msg. split; [apply in_expand_head; cbn; auto|].
   cbn [keys_msg m_name m_psm m_oneof m_fields]. rewrite cn_keys. repeat split.
   apply (Forall2_map_r _ (fun k => of_ufield (k_def k))). intros k _.
-  unfold key_name, key_primary, of_ufield. destruct (uf_kind (k_def k)) as [pt j|n|n|n|p fo te|tn j|i|i];
+  unfold key_name, key_primary, of_ufield. destruct (uf_kind (k_def k)) as [pt j|n|n|n|p fo te|tn j|i|i|sfs|sfs|os];
     cbn [f_json f_primary f_required]; repeat split; try discriminate; auto.
   - intros ->. reflexivity.
   - intros ->. apply orb_true_r.
@@ -66,7 +66,7 @@ Proof.
   intros e fl. exists (data_msg e). unfold has_msg. split; [apply in_expand_head; cbn; auto|].
   cbn [data_msg m_name m_psm m_oneof m_fields]. rewrite cn_data. repeat split.
   apply Forall2_map_r. intros u _. unfold of_ufield.
-  destruct (uf_kind u) as [pt j|n|n|n|p fo te|tn j|i|i]; cbn [f_json f_required]; split; try reflexivity; auto.
+  destruct (uf_kind u) as [pt j|n|n|n|p fo te|tn j|i|i|sfs|sfs|os]; cbn [f_json f_required]; split; try reflexivity; auto.
   intros ->. reflexivity.
 Qed.
 
@@ -554,6 +554,14 @@ Proof.
     rewrite join_app by discriminate. reflexivity.
 Qed.
 
+Lemma ufield_wf_parts : forall u, ufield_wf u = true ->
+  name_ok (uf_name u) = true /\ is_inline_kind u = false
+  /\ (uf_optional u && (uf_required u || match uf_kind u with KKey p _ _ => p | _ => false end)) = false.
+Proof.
+  intros u H. unfold ufield_wf in H. apply andb_true_iff in H. destruct H as [H H3].
+  apply andb_true_iff in H. destruct H as [H1 H2]. apply negb_true_iff in H2, H3. auto.
+Qed.
+
 (* ---- what [in_quantifier] gives ---------------------------------------------------------------------------- *)
 Lemma in_quantifier_parts : forall e, in_quantifier e = true ->
   name_ok (e_name e) = true /\ pkg_ok (e_pkg e) = true
@@ -648,7 +656,7 @@ Proof.
   intros e H. destruct (in_quantifier_parts e H) as [_ [_ [_ [_ [Hk _]]]]].
   unfold fields_wf in Hk. apply andb_true_iff in Hk. destruct Hk as [Hk _].
   apply Forall_forall. intros u Hu. apply get_keys_incl in Hu. rewrite forallb_forall in Hk.
-  specialize (Hk u Hu). unfold ufield_wf in Hk. apply andb_true_iff in Hk. destruct Hk as [Hk _].
+  specialize (Hk u Hu). destruct (ufield_wf_parts u Hk) as [Hk' _]. clear Hk. rename Hk' into Hk.
   unfold name_ok in Hk. apply andb_true_iff in Hk. destruct Hk as [Hi _].
   unfold key_seg_ok. destruct (ident_no_colon_slash _ Hi) as [_ ->].
   destruct (ident_no_colon_slash _ (to_snake_ident _ Hi)) as [_ ->]. reflexivity.
